@@ -25,6 +25,9 @@ def clampf(value, low, high):
     return low if value < low else (high if value > high else value)
 
 
+KNOWN_ROUNDING = "tolerance/int-bound-beyond-2^53-with-float-tolerance"
+
+
 def twin(num):
     """The same number as the other kind of Python number, where one exists that compares equal
     (3 <-> 3.0, 2^53 + 2 <-> 9007199254740994.0): equal for ==, for hash() and hence for any
@@ -226,6 +229,34 @@ def run(ctx):
                                     "rect": [[x_lo, y_lo], [x_hi, y_hi]], "tol": tol})
                 part.count("point_cases")
                 part.count("big_int_cases")
+    # the same whole numbers with a *float* tolerance (the default tolerance of point_in_bounds is
+    # the float 1e-9): `bound + tolerance` is then formed in floating point, where a bound
+    # beyond 2^53 has no exact image.  Violations that have this cause - and only those - carry
+    # one canonical key (a listed known finding, see KNOWN_FINDINGS.txt / DESIGN.md section 5).
+    def rounds(bounds, tol):
+        return any(isinstance(b, int) and not isinstance(b, bool) and abs(b) > (1 << 53) and
+                   (F(b + tol) != F(b) + F(tol) or F(b - tol) != F(b) - F(tol)) for b in bounds)
+
+    for tol in (1.0, 0.5, 1e-9):
+        for low, high in ((0, big[2]), (big[1], big[2]), (big[2], big[2]), (big[0], big[4]),
+                          (big[6], big[7]), (-big[2], big[3])):
+            for value in big + [-b for b in big[:4]] + [0]:
+                for clause, msg in check_scalar(value, low, high, tol):
+                    key = KNOWN_ROUNDING if rounds((low, high), tol) else \
+                        f"{clause}:bigf:{value}:{low}:{high}:{tol}"
+                    part.violation(key, msg, {"kind": "scalar", "case": [value, low, high, tol]})
+                part.count("scalar_cases")
+                part.count("big_int_float_tolerance_cases")
+                for y_val in (0, big[2]):
+                    rect = ((low, 0), (high, big[2]))
+                    for clause, msg in check_point((value, y_val), rect, tol):
+                        key = KNOWN_ROUNDING if rounds((low, high, 0, big[2]), tol) else \
+                            f"{clause}:bigf:{value}:{y_val}:{low}:{high}:{tol}"
+                        part.violation(key, msg, {"kind": "point", "point": [value, y_val],
+                                                  "rect": [list(rect[0]), list(rect[1])],
+                                                  "tol": tol})
+                    part.count("point_cases")
+                    part.count("big_int_float_tolerance_cases")
     # infinite values and bounds (an unlimited axis): legal for any lower <= upper, compared
     # exactly by the language; expectations straight from the statement, no rationals needed
     inf = math.inf
